@@ -160,12 +160,26 @@ func cmdCheck(args []string) int {
 	tier := fs.String("tier", envOr("VERIF_TIER", "quick"), "quick|thorough")
 	workers := fs.Int("workers", runtime.NumCPU(), "")
 	only := fs.String("only", "", "run only this harness")
-	fs.Parse(args)
-	if fs.NArg() != 1 {
+	// accept the property before or after the flags
+	var flagArgs, pos []string
+	for k := 0; k < len(args); k++ {
+		a := args[k]
+		if strings.HasPrefix(a, "-") {
+			flagArgs = append(flagArgs, a)
+			if !strings.Contains(a, "=") && k+1 < len(args) {
+				flagArgs = append(flagArgs, args[k+1])
+				k++
+			}
+		} else {
+			pos = append(pos, a)
+		}
+	}
+	fs.Parse(flagArgs)
+	if len(pos) != 1 {
 		fmt.Fprintln(os.Stderr, "check <property> [--tier quick|thorough]")
 		return 2
 	}
-	prop := fs.Arg(0)
+	prop := pos[0]
 	seed := 0
 	fmt.Sscan(os.Getenv("VERIF_SEED"), &seed)
 	t0 := time.Now()
